@@ -151,13 +151,14 @@ theorem loop_compute_bounded {U M : Type} [DecidableEq U] [DecidableEq M]
 
 open Rio.FfiNull in
 /-- **Every entry point is null-safe under every null pattern.**  `table` is regenerated from the source;
-this is a `decide` over a finite table (29 entries, at most 2^5 patterns each), labelled as such. -/
+this is a `decide` over a finite table (`Rio.Consts.ffiNullTableSize` entries: every `extern "C"` function and the four helpers
+pointers go through; at most 2^5 patterns each), labelled as such. -/
 theorem null_patterns : table.all Entry.safeAll = true := by decide
 
 open Rio.FfiNull in
 /-- The table is the real one (not empty), and the check is not vacuous: an entry point that dereferences
 before checking is rejected, and a deref in an else-branch is accepted. -/
-example : table.length ≥ 25 := by decide
+example : table.length = Rio.Consts.ffiNullTableSize ∧ table.length ≥ 25 := by decide
 open Rio.FfiNull in
 example : Entry.safeAll ⟨"bad", ["p"], [.deref 0, .guard 0]⟩ = false := by decide
 open Rio.FfiNull in
